@@ -55,6 +55,11 @@ pub struct TypeSpec {
     /// A live value of this type keeps its source borrowed (request-scoped / transient types only).
     #[serde(default)]
     pub view_of: Option<usize>,
+    /// an error handler (index into `comps`, kind `ErrHandler`, never registered on its own) attached to the
+    /// registration of constructor variant 0 with `.error_handler(..)`: it takes precedence over the
+    /// handler registered for the error type
+    #[serde(default)]
+    pub specific_eh: Option<usize>,
 }
 
 impl TypeSpec {
